@@ -76,25 +76,7 @@ def rtLine (c : Cmd) (env0 env : Env) : String :=
   | .panic, _ => "panic"
   | _, _ => "err"
 
-/-- byte range `[lo, hi)` of a fixed-width field's slot inside the encoded command -/
-def slotRange (c : Cmd) (f : String) : Option (Nat × Nat) := do
-  -- a field Marshal overwrites (`c.F = len(c.G)`) does not carry the caller's value
-  if c.marshal.any (fun s => match s with | .assignLen g _ _ => g == f | _ => false) then none
-  let m ← layoutM c.marshal
-  let rec go (ss : List Slot) (pOff dOff : Nat) : Option (Blk × Nat × Nat) :=
-    match ss with
-    | [] => none
-    | .int b w _ g :: r =>
-      if g == f then some (b, (if b == .P then pOff else dOff), w)
-      else if b == .P then go r (pOff + w) dOff else go r pOff (dOff + w)
-    | .u8 b g :: r =>
-      if g == f then some (b, (if b == .P then pOff else dOff), 1)
-      else if b == .P then go r (pOff + 1) dOff else go r pOff (dOff + 1)
-    | _ :: _ => none     -- a variable-width slot before it: offset depends on values
-  let (b, off, w) ← go (m.filter (·.blk == .P) ++ m.filter (·.blk == .D)) 0 0
-  match b with
-  | .P => some (1 + (andxBytes c.isAndX).length + off, 1 + (andxBytes c.isAndX).length + off + w)
-  | .D => none
+-- `slotRange` (byte range of a fixed-width field's slot): `Manticore.SmbIR.slotRange` in Model/SmbCmd.lean
 
 def entries : List Entry := [
   -- marshal a command built from the given field values
